@@ -85,7 +85,7 @@ def oracle(case, stats):
                          (tag, e, i + 1, j + 1, QB[i, j], R.AQA[i, j]))
     # AdjBase classes on the homogenised system: q_bb is the projector
     wc = whitened_case(case, R)
-    res = query(wc, "raw", ["cholesky", "gso", "svd"], ["allqxx", "allqbb"])
+    res = query(wc, "raw", ["cholesky", "gso", "svd"], ["allqxx", "allqbb", "allqbx"])
     res.update(query(case, "raw", ["envelope"], ["allqxx", "allqbb"]))
     for alg in ALGS:
         a = res[alg]
@@ -108,6 +108,22 @@ def oracle(case, stats):
         e = float(np.max(np.abs(QB @ QB - QB)))
         if e > tol:
             fails.append("%s.qbb_idempotent: %.3g" % (tag, e))
+        if "allqbx" in a:
+            # mixed cofactors (adjusted observation, unknown) = A Q* on the homogenised system (AdjEnvelope documents q_bx
+            # as not implemented)
+            QX = val(a["allqbx"])
+            if QX is None or not np.all(np.isfinite(QX)):
+                fails.append("%s.qbx_exception: %s" % (tag, str(a["allqbx"])[:200]))
+            else:
+                QX = QX.reshape(R.m, R.n)
+                Aw = np.array(wc["A"], float)
+                ref = Aw @ R.Q
+                tolx = 1e-8 * kappa * kappa * max(1.0, float(np.max(np.abs(ref))))
+                e = float(np.max(np.abs(QX - ref)))
+                stats.ratio(tag + ".qbx", e / tolx)
+                if e > tolx:
+                    i, j = np.unravel_index(np.argmax(np.abs(QX - ref)), QX.shape)
+                    fails.append("%s.qbx: |q_bx - A Q*|=%.3g at (%d,%d) gama %.6g ref %.6g" % (tag, e, i + 1, j + 1, QX[i, j], ref[i, j]))
         dg = np.diag(QB)
         if dg.min() < -tol or dg.max() > 1 + tol:
             fails.append("%s.qbb_diag_range: [%.6g, %.6g]" % (tag, dg.min(), dg.max()))
